@@ -2,7 +2,7 @@
    Statements only (copied from the lemma libraries); every proof is a bare
    `exact`; see the cited files in coq/proofs for the proofs. *)
 From Coq Require Import List NArith ZArith Bool Arith Sorting.Sorted Sorting.Permutation.
-From D2P Require Import Str Err Xml TableTypes Tables Fmt Bullets Merge Collector Walk ShapeFacts TokFacts FrameFacts BulletsFacts MergeFacts TablesFacts SerialFacts GridFacts TriviaFacts SplitFacts.
+From D2P Require Import Str Err Xml TableTypes Tables Fmt Bullets Merge Collector Walk ShapeFacts TokFacts FrameFacts BulletsFacts MergeFacts TablesFacts SerialFacts GridFacts TriviaFacts SplitFacts PyVal Source SourceBase SourceMerge.
 Import ListNotations.
 
 (* the element tree exposed for editing carries the same characters and content marks, in the same order, as the original part (under: text elements have no content children, one prefix per namespace) *)
@@ -229,3 +229,32 @@ Theorem C06_rid_run_refuted :
     fr (extract v (AE ep (AE e ks :: rest))) <> fr (extract v (AE ep (AE e ks' :: rest))).
 Proof. exact rid_run_counterexample. Qed.
 Print Assumptions C06_rid_run_refuted.
+
+(* SOURCE TIE: the _MERGEABLE_TAGS set as read by the source translator is the model's (table translator's) list *)
+Theorem C06_source_mergeable_tags :
+  S__MERGEABLE_TAGS = map VStr mergeable_tags.
+Proof. exact src_mergeable_tags. Qed.
+Print Assumptions C06_source_mergeable_tags.
+
+(* SOURCE TIE: merge_runs._is_mergeable as translated from the source text decides exactly the model's is_mergeable *)
+Theorem C06_source_is_mergeable :
+  forall e ks, tag_is_no_ptag e ->
+  S__is_mergeable (enc_el (AE e ks)) = Ok (VBool (is_mergeable e)).
+Proof. exact src_is_mergeable. Qed.
+Print Assumptions C06_source_is_mergeable.
+
+(* SOURCE TIE: merge_runs._is_text_or_text_math as translated from the source text is the model's is_text_like *)
+Theorem C06_source_is_text_or_text_math :
+  forall e ks, tag_is_no_ptag e ->
+  S__is_text_or_text_math (enc_el (AE e ks)) = Ok (VBool (is_text_like e)).
+Proof. exact src_is_text_or_text_math. Qed.
+Print Assumptions C06_source_is_text_or_text_math.
+
+(* SOURCE TIE: merge_runs._elem_key as translated from the source text computes the model's merge key (tag, link target, formatting) for every element and relationship table; get_html_formatting is a parameter assumed to agree with the model's (tied by correspondence) *)
+Theorem C06_source_elem_key :
+  forall (ext : pv -> pv -> res pv) v e ks fmt,
+  tag_is_no_ptag e -> e_ruri e <> Some [] -> rid_name_unambiguous e ->
+  ext (enc_el (AE e ks)) fmt = lift_strs (get_html_formatting e ks (env_x2h v)) ->
+  S__elem_key ext (enc_file v fmt) (enc_el (AE e ks)) = lift_key (elem_key v e ks).
+Proof. exact src_elem_key. Qed.
+Print Assumptions C06_source_elem_key.
